@@ -135,6 +135,7 @@ NEEDED = {
  'C15-17': 'daily resets judged by the clock time at which they happen, not by the stored window start',
  'C17-17': 'reduce-only root on a utilised bank with a year of uncollected fees',
  # round 7 (session 5)
+ 'C19-16': 'budget variant with a legacy position whose reward clock was never stamped (the first touch earns nothing)',
  'C01-17': '(caught by the sibling check C06: the accrual sweep has curves whose rates reach the cap)',
  'C04-16': '(caught by the sibling check C09: confidence just over the maximum in the Switchboard condition matrix)',
  'C04-17': 'Drift gate with a collateral-value cap a hundred times the deposits: the borrow boundary must be the same with and without a cap that does not bite',
